@@ -235,6 +235,18 @@ fn doc_of(spec: &Value, id: u64) -> Vec<(String, OwnedValue)> {
         v.push(("pad".to_string(), OwnedValue::Str(s)));
     } else if let Some(s) = spec.get("rich").and_then(|x| x.as_u64()) {
         v.extend(rich_doc(s));
+    } else if let Some(m) = spec.get("many") {
+        // n values, the multi-valued stored fields t, u, i, f, b taken in turn (every value distinct or nearly so)
+        let (n, nf) = (m["n"].as_u64().unwrap() as usize, m["nfields"].as_u64().unwrap_or(3) as usize);
+        for k in 0..n {
+            v.push(match (k * 7 + k / 5) % nf {
+                0 => ("t".to_string(), OwnedValue::Str(format!("v{k}"))),
+                1 => ("u".to_string(), OwnedValue::U64(1000 + k as u64)),
+                2 => ("i".to_string(), OwnedValue::I64(-(k as i64))),
+                3 => ("f".to_string(), OwnedValue::F64(k as f64 / 4.0)),
+                _ => ("b".to_string(), OwnedValue::Bool(k % 3 == 0)),
+            });
+        }
     } else if let Some(b) = spec.get("big") {
         // one value of exactly `len` bytes derived from a small seed: text, bytes, or a string leaf of a JSON object
         let len = b["len"].as_u64().unwrap() as usize;
@@ -318,7 +330,15 @@ impl<'a> Run<'a> {
                     }
                 }));
                 match r {
-                    Ok(Ok(doc)) => gets.push(json!([k + 1, d, render_doc(&self.f.schema, &doc)])),
+                    Ok(Ok(doc)) => {
+                        // the same document through to_named_doc (per field the values in order) and through to_json (the
+                        // string values of field t as the JSON text gives them)
+                        use tantivy::schema::document::Document as _;
+                        let named: BTreeMap<String, Vec<Value>> = doc.to_named_doc(&self.f.schema).0.iter().map(|(k, vs)| (k.clone(), vs.iter().map(render).collect())).collect();
+                        let js: Value = serde_json::from_str(&doc.to_json(&self.f.schema)).unwrap_or(Value::Null);
+                        let jt: Vec<Value> = js.get("t").and_then(|x| x.as_array()).cloned().unwrap_or_default();
+                        gets.push(json!([k + 1, d, render_doc(&self.f.schema, &doc), named, jt]))
+                    }
                     Ok(Err(e)) => gets.push(json!([k + 1, d, {"error": errclass(&e)}])),
                     Err(_) => {
                         self.tracer.emit(json!({"ev":"panic","in":"get","doc":d,"phase":phase}));
